@@ -290,8 +290,17 @@ def main():
     if c == 'list':
         return cmd_list(sys.argv[2:])
     if c == 'check':
-        from vx import check
-        return check.cmd_check(sys.argv[2:])
+        # an internal error of the machinery must never look like a verdict: exit 2 (undecided), not Python's exit 1
+        try:
+            from vx import check
+            return check.cmd_check(sys.argv[2:])
+        except SystemExit:
+            raise
+        except BaseException as e:
+            import traceback
+            traceback.print_exc()
+            print('UNDECIDED {"kind": "internal", "message": %s}' % json.dumps(repr(e)[:300]))
+            return 2
     print(__doc__)
     return 2
 
